@@ -755,7 +755,7 @@ class Messenger(Connection):
                         length=pkt.payload.length
                     )
                 elif msgcls == messages.TransferRefuse:
-                    self.recv_xfer_refuse(pkt.payload.transfer_id, pkt.flags)
+                    self.recv_xfer_refuse(pkt.payload.transfer_id, pkt.payload.reason)
 
                 else:
                     # Bad RX message
@@ -1327,9 +1327,12 @@ class ContactHandler(Messenger, dbus.service.Object):
     def recv_xfer_refuse(self, transfer_id, reason):
         Messenger.recv_xfer_refuse(self, transfer_id, reason)
 
-        self.send_bundle_finished(transfer_id, 'refused with code %s', reason)
+        if transfer_id not in self._tx_map or self._tx_map[transfer_id] in self._tx_pend_start:
+            # Not a transfer which has been started
+            raise RejectError(messages.RejectMsg.Reason.UNEXPECTED)
         item = self._tx_map.pop(transfer_id)
-        self._tx_pend_ack.remove(item)
+        self._tx_pend_ack.discard(item)
+        self.send_bundle_finished(str(transfer_id), item.ack_length, 'refused with code %s' % reason)
 
         # interrupt in-progress
         if self._tx_tmp is not None and self._tx_tmp.transfer_id == transfer_id:
